@@ -219,7 +219,7 @@ def _redecl_one(item):
 
 
 SLIPS = ["alias_signal", "alias_instance", "call_returns_same", "rename_signal", "rename_instance", "rename_to_implicit", "stale_slice",
-         "width_zero", "width_shrunk_under_slice", "ext_dup_ports", "alias_port", "alias_in_child"]
+         "width_zero", "width_shrunk_under_slice", "ext_dup_ports", "alias_port", "alias_in_child", "same_name_below"]
 
 
 def _slip_one(kind):
@@ -272,6 +272,18 @@ def _slip_one(kind):
         elif kind == "ext_dup_ports":
             e = h.ExternalModule(name="SDup", port_list=[h.Inout(name="a"), h.Inout(name="a")], paramtype=dict)
             m.e = e()(a=m.w)
+        elif kind == "same_name_below":
+            # a module that has the name of a module further down its own hierarchy (cells made by a plain function)
+            def stage(inner):
+                st = h.Module(name="SStage")
+                st.p, st.q = h.Input(), h.Output()
+                st.u = inner(**({"i": st.p, "z": st.q} if inner is inv else {"p": st.p, "q": st.q}))
+                return st
+
+            buf = h.Module(name="SBuf")
+            buf.p, buf.q = h.Input(), h.Output()
+            buf.s = stage(inv)(p=buf.p, q=buf.q)
+            m.c = stage(buf)(p=m.y, q=m.w)
         elif kind == "alias_in_child":
             c = h.Module(name="SChild")
             c.p, c.q = h.Input(), h.Output()
